@@ -114,6 +114,20 @@ def run(ctx, rep):
     rep.coverage['arity_histogram'] = {str(k): sum(1 for t in tuples if len(t) == k) for k in (2, 3, 4)}
     for c, key, what in res:
         rep.violation(key, what, dict(c.data(), kind='decide'))
+    # soundness only (no comparison with the model, whose defaults are plain values): some defaults
+    # are an object that compares equal to everything, like unittest.mock.ANY
+    wrng = ctx.rng('wildcard')
+    wcases = []
+    for _ in range(1500 if ctx.quick else 20000):
+        base = random_sig(wrng, 'abcde', 5)
+        ts = [mutate(wrng, base) for _ in range(wrng.choice([2, 2, 3]))]
+        ts = [[(p[0], p[1], (3 if (p[2] is not None and wrng.random() < 0.5) else p[2]), p[3], p[4]) for p in ps] for ps in ts]
+        wcases.append(Merge([mk_desc(ps, 100 + k) for k, ps in enumerate(ts)]))
+    wtr = [(c, None, c.impl()) for c in wcases]
+    rep.evaluations += len(wtr)
+    rep.coverage['wildcard_default_tuples'] = len(wtr)
+    for c, key, what in decide(wtr)[0]:
+        rep.violation(key, what + ' (default 3 stands for an object that compares equal to everything)', dict(c.data(), kind='decide'))
     for c, m, i in triples[:2] + triples[-3:]:
         rep.sample({'case': c.show(), 'impl': show_sig(i[1]) if i[0] == 'ok' else i[1]})
     rep.assumptions = ['parameter objects of the inputs are fresh objects',
